@@ -3,8 +3,9 @@
 //! compute_fields: recorder, possible_intersection: recorder with an arbitrary return code).
 //! Decides: neighbour checks on insertion (event vs next, prev vs event) and after removal
 //! (prev vs next), in (lower, upper) argument order, independent of operand tags; recomputation on
-//! return code 2; the early-exit rule; every popped event is reported.  Real BinaryHeap, real
-//! SplaySet, real event order.  What the neighbour checks imply for planarity stays a paper step.
+//! return code 2; the early-exit rule; every popped event is reported.  The event queue is environment
+//! (`BinaryHeap::pop` delivers the template's events in sweep order), and so is the sweep-line status
+//! (a sorted array standing in for SplaySet, whose own behaviour is C17).  What the neighbour checks imply for planarity stays a paper step.
 
 use super::super::helper::{BoundingBox, Float};
 use super::super::subdivide_segments::subdivide;
@@ -61,6 +62,67 @@ pub fn possible_intersection_model<F: Float>(se1: &Rc<SweepEvent<F>>, se2: &Rc<S
     }
 }
 
+// ---- the sweep-line status as environment: a sorted array of at most three events, ordered by the
+// template's vertical order (height of the left endpoint).  The real SplaySet is the subject of C17;
+// its node type's recursive drop glue makes any harness that needs an unwind bound >= 8 (the sweep
+// loop itself runs 7 times here) intractable.
+use crate::splay::SplaySet;
+static mut STATUS: [*const (); 3] = [std::ptr::null(); 3]; // slot k = the segment at height k, if present
+fn height_of<T>(t: &T) -> usize {
+    assert!(std::mem::size_of::<T>() == std::mem::size_of::<*const ()>());
+    let e: Rc<SweepEvent<f64>> = unsafe { std::mem::transmute_copy(t) };
+    let h = e.point.y as usize;
+    std::mem::forget(e);
+    h
+}
+fn slot_ref<'a, T>(k: usize) -> &'a T {
+    unsafe { &*(&STATUS[k] as *const *const () as *const T) }
+}
+pub fn set_insert_model<T, C: Fn(&T, &T) -> Ordering>(_s: &mut SplaySet<T, C>, t: T) -> bool {
+    let h = height_of(&t);
+    let fresh = unsafe { STATUS[h].is_null() };
+    unsafe {
+        STATUS[h] = std::mem::transmute_copy(&t);
+    }
+    std::mem::forget(t);
+    fresh
+}
+pub fn set_remove_model<T, C: Fn(&T, &T) -> Ordering>(_s: &mut SplaySet<T, C>, t: &T) -> bool {
+    let h = height_of(t);
+    let was = unsafe { !STATUS[h].is_null() };
+    unsafe {
+        STATUS[h] = std::ptr::null();
+    }
+    was
+}
+pub fn set_contains_model<T, C: Fn(&T, &T) -> Ordering>(_s: &SplaySet<T, C>, t: &T) -> bool {
+    unsafe { !STATUS[height_of(t)].is_null() }
+}
+pub fn set_prev_model<'a, T, C: Fn(&T, &T) -> Ordering>(_s: &'a SplaySet<T, C>, t: &T) -> Option<&'a T> {
+    let h = height_of(t);
+    unsafe {
+        if h >= 2 && !STATUS[1].is_null() {
+            return Some(slot_ref(1));
+        }
+        if h >= 1 && !STATUS[0].is_null() {
+            return Some(slot_ref(0));
+        }
+    }
+    None
+}
+pub fn set_next_model<'a, T, C: Fn(&T, &T) -> Ordering>(_s: &'a SplaySet<T, C>, t: &T) -> Option<&'a T> {
+    let h = height_of(t);
+    unsafe {
+        if h == 0 && !STATUS[1].is_null() {
+            return Some(slot_ref(1));
+        }
+        if h <= 1 && !STATUS[2].is_null() {
+            return Some(slot_ref(2));
+        }
+    }
+    None
+}
+
 fn c(x: f64, y: f64) -> Coord<f64> {
     Coord { x, y }
 }
@@ -105,17 +167,8 @@ fn stack3(ax: (f64, f64), bx: (f64, f64), cx: (f64, f64)) {
         PI_CODES = codes;
         NPI = 0;
         NLOG = 0;
+        STATUS = [std::ptr::null(); 3];
     }
-    let mut q = BinaryHeap::new();
-    q.push(cc.r.clone());
-    q.push(a.l.clone());
-    q.push(b.r.clone());
-    q.push(cc.l.clone());
-    q.push(a.r.clone());
-    q.push(b.l.clone());
-
-    let sorted = subdivide(&mut q, &sb, &cb, op);
-
     // ---- reference: events by abscissa (distinct), status as a sorted stack of at most three
     let evs: [(f64, u8, bool); 6] = {
         let mut e = [(ax.0, 0u8, true), (ax.1, 0, false), (bx.0, 1, true), (bx.1, 1, false), (cx.0, 2, true), (cx.1, 2, false)];
@@ -131,6 +184,23 @@ fn stack3(ax: (f64, f64), bx: (f64, f64), cx: (f64, f64)) {
         }
         e
     };
+    // the event queue is environment here (BinaryHeap::pop is scripted): it delivers the six events in
+    // sweep order, which for distinct abscissas is the order by x
+    let mut q: BinaryHeap<Rc<SweepEvent<f64>>> = BinaryHeap::new();
+    unsafe {
+        NSCRIPT = 0;
+        ISCRIPT = 0;
+    }
+    let mut k = 0;
+    while k < 6 {
+        let (_, s, left) = evs[k];
+        let sg = if s == 0 { &a } else if s == 1 { &b } else { &cc };
+        script_push(if left { &sg.l } else { &sg.r });
+        k += 1;
+    }
+
+    let sorted = subdivide(&mut q, &sb, &cb, op);
+
     let ids = [id(&a.l), id(&b.l), id(&cc.l)];
     let rids = [id(&a.r), id(&b.r), id(&cc.r)];
     let mut present = [false; 3];
@@ -225,11 +295,16 @@ fn stack3(ax: (f64, f64), bx: (f64, f64), cx: (f64, f64)) {
 macro_rules! sweep_h {
     ($name:ident, $a:expr, $b:expr, $c:expr) => {
         #[kani::proof]
-        #[kani::unwind(10)]
+        #[kani::unwind(16)]
+        #[kani::stub(crate::splay::SplaySet::insert, set_insert_model)]
+        #[kani::stub(crate::splay::SplaySet::remove, set_remove_model)]
+        #[kani::stub(crate::splay::SplaySet::contains, set_contains_model)]
+        #[kani::stub(crate::splay::SplaySet::prev, set_prev_model)]
+        #[kani::stub(crate::splay::SplaySet::next, set_next_model)]
         #[kani::stub(super::super::compare_segments::compare_segments, compare_segments_model)]
         #[kani::stub(super::super::compute_fields::compute_fields, compute_fields_model)]
         #[kani::stub(super::super::possible_intersection::possible_intersection, possible_intersection_model)]
-        #[kani::stub(robust::orient2d, super::common::orient2d_stub)]
+        #[kani::stub(std::collections::BinaryHeap::pop, super::common::heap_pop_scripted)]
         fn $name() {
             stack3($a, $b, $c)
         }
